@@ -38,7 +38,7 @@ package announce
 //@   shutdown done
 
 //@ func (*Receiver).UncacheCid
-//@   property C16 C09
+//@   property C16 C09 C04
 //@   requires recvOK(r) && !held(r.announceMutex)
 //@   modifies state(r.announceCache)
 //@   ensures recvOK(r)
@@ -82,7 +82,7 @@ package announce
 // After close the duplicate filter is not touched; a rejected source never
 // reaches the mutex or the filter.
 //@ func (*Receiver).announceCheck
-//@   property C16 C09
+//@   property C16 C09 C04 C08
 //@   requires recvOK(r) && !held(r.announceMutex)
 //@   modifies state(r.announceCache)
 //@   ensures recvOK(r)
@@ -101,6 +101,11 @@ package announce
 //@   at call String: assert arg0 == amsg.Cid
 //@   at call String: after ghost key := str(result)
 //@   at call update: assert str(arg1) == key && count("call:String") == 1
+// an allowed announcement on an open receiver is refused exactly when the filter held its CID - nothing else
+// remembers CIDs (C04/C08: a CID un-cached after a failed sync, or never delivered, is deliverable again)
+//@   ghost dup := false
+//@   at call update: after ghost dup := result
+//@   ensures-local allowed && !old(r.closed) ==> (result != nil <==> dup)
 
 // Republication (C09): the message sent on carries the announced CID, the announced addresses and, as
 // its original-peer field, the publisher of the announcement; nothing of the receiver changes.
@@ -202,7 +207,7 @@ package announce
 
 // remove(s): reports whether s was present; afterwards it is not; nothing else changes.
 //@ func (*stringLRU).remove
-//@   property C09
+//@   property C09 C04
 //@   requires lruOK(l)
 //@   modifies state(l)
 //@   ensures lruOK(l)
